@@ -29,18 +29,6 @@ struct Obs {
 
 static long nprobe = 0;
 
-static Obs observe(const TimeZone& tz, acetime_t t) {
-  nprobe++;
-  Obs o;
-  TimeOffset u = tz.getUtcOffset(t);
-  TimeOffset d = tz.getDeltaOffset(t);
-  const char* a = tz.getAbbrev(t);
-  o.utoff = u.isError() ? 999999 : u.toMinutes() * 60;
-  o.delta = d.isError() ? 999999 : d.toMinutes() * 60;
-  o.abbr = a ? a : "<null>";
-  return o;
-}
-
 // the same three accessors, asked in a chosen order (which of them is the first call on a zone after another zone used a
 // shared processor matters)
 static Obs observe_order(const TimeZone& tz, acetime_t t, int order) {
@@ -57,6 +45,14 @@ static Obs observe_order(const TimeZone& tz, acetime_t t, int order) {
   o.delta = d.isError() ? 999999 : d.toMinutes() * 60;
   return o;
 }
+
+// the three accessors in an order that rotates from probe to probe: whichever of them is the first to be asked about an
+// instant (in particular about the first instant of another year) must bring the processor up to date by itself
+static Obs observe(const TimeZone& tz, acetime_t t) {
+  static unsigned long rot = 0;
+  return observe_order(tz, t, (int) (rot++ % 3));
+}
+
 
 struct Piece { long t; Obs o; };
 
